@@ -381,11 +381,34 @@ class C04(Spec):
                        (l, lgk, emp, x0.lgk if x0 else None, x0.has_content() if x0 else None))
         return bad
 
+    def extra_stages(self, rep, tier, rng, broken):
+        self._trans = rep.cov.setdefault("transitions_hit", {})
+
     def nontrivial_key(self, hist, impl_out):
         sig = []
         nmerge = {}
+        t = getattr(self, "_trans", None)
+        lgk_of = {}
         for l, o in zip(hist, impl_out):
             w = l.split()
+            if t is not None:
+                ow = o.split()
+                if w[0] == "umerge":
+                    t["updates_rvalue" if w[3] == "1" else "updates_lvalue"] = t.get("updates_rvalue" if w[3] == "1" else "updates_lvalue", 0) + 1
+                if w[0] in ("umerge", "upd", "ureset", "unew") and len(ow) >= 3 and ow[0] == "U":
+                    prev = lgk_of.get(w[1])
+                    if prev is not None and int(ow[1]) < prev:
+                        t["gadget_downsampled"] = t.get("gadget_downsampled", 0) + 1
+                    if w[0] == "ureset":
+                        t["resets"] = t.get("resets", 0) + 1
+                    lgk_of[w[1]] = int(ow[1])
+                if w[0] == "uest":
+                    t["estimate_calls"] = t.get("estimate_calls", 0) + 1
+                if w[0] == "ures":
+                    F = parse_F(o)
+                    if F:
+                        k = "results_mode_%s" % ("list", "set", "hll")[F["mode"]]
+                        t[k] = t.get(k, 0) + 1
             if w[0] == "umerge":
                 nmerge[w[1]] = nmerge.get(w[1], 0) + 1
             if w[0] == "ures" and nmerge.get(w[1], 0) >= 2:
